@@ -1,6 +1,7 @@
 package props
 
 import (
+	"encoding/base64"
 	"encoding/json"
 	"fmt"
 	"os"
@@ -82,7 +83,8 @@ func TestC11(t *testing.T) {
 		// a replica whose operator started it with other node-local options: invariants not asserted at
 		// genesis and / or asserted periodically by x/crisis
 		flags := NodeFlags{SkipGenesisInvariants: rapid.Bool().Draw(t, "skipGenesisInvariants"), InvCheckPeriod: uint(rapid.IntRange(0, 3).Draw(t, "invCheckPeriod")),
-			TimeZone: NodeTimeZones[rapid.IntRange(0, len(NodeTimeZones)-1).Draw(t, "timeZone")]} // ... and on a machine in another time zone
+			TimeZone: NodeTimeZones[rapid.IntRange(0, len(NodeTimeZones)-1).Draw(t, "timeZone")], // ... on a machine in another time zone
+			DebugLog: rapid.Bool().Draw(t, "debugLog")}                                           // ... with debug logging switched on
 		if diff := compareTraces(traceA, ReplayAs(d.hist, ReplicaOpts{Flags: flags})); diff != "" {
 			t.Fatalf("a replica started with node-local options %+v diverged from one started with the defaults: %s\nhistory:\n%s", flags, diff, jsonStr(d.log))
 		}
@@ -134,6 +136,52 @@ func TestC11(t *testing.T) {
 					t.Fatalf("a replica in a second OS process diverged: %s\nhistory:\n%s", diff, jsonStr(d.log))
 				}
 				st.Count("cross_process_replays", 1)
+				// ... and a node whose process ends after a block and is started again, in a new OS process, over the
+				// data directory it left behind (no InitChain in that process; nothing survives in memory, not even
+				// package-level variables)
+				k := 0
+				for i := range restarts {
+					if i > k {
+						k = i
+					}
+				}
+				gen, _ := base64.StdEncoding.DecodeString(d.hist.Genesis)
+				cold := NewChainFromGenesisWith(gen, d.hist.InitialHeight, nsTime(d.hist.GenesisTimeNs), NodeFlags{})
+				cold.RunBlocks(d.hist, 0, k+1)
+				df, err2 := os.CreateTemp("", "c11db*.json")
+				hf, err3 := os.CreateTemp("", "c11hist*.json")
+				if err2 == nil && err3 == nil {
+					df.Write(DumpDB(cold.DB))
+					df.Close()
+					hbz, _ := json.Marshal(d.hist)
+					hf.Write(hbz)
+					hf.Close()
+					cmd := exec.Command(os.Args[0], "-test.run", "^TestC11ReplayChild$")
+					cmd.Env = append(os.Environ(), "VERIF_C11_HISTORY="+hf.Name(), "VERIF_C11_DBDUMP="+df.Name(),
+						fmt.Sprintf("VERIF_C11_RESUME=%d %d %d", k+1, cold.Height, cold.Time.UnixNano()), "VERIF_STATS_DIR=")
+					out, err := cmd.Output()
+					os.Remove(df.Name())
+					os.Remove(hf.Name())
+					if err != nil {
+						t.Fatalf("the node started over the data directory failed: %v\n%s", err, out)
+					}
+					var traceD []BlockTrace
+					if i := indexOf(out, []byte("TRACE:")); i >= 0 {
+						line := out[i+6:]
+						if j := indexOf(line, []byte("\n")); j >= 0 {
+							line = line[:j]
+						}
+						if err := json.Unmarshal(line, &traceD); err != nil {
+							t.Fatalf("cannot parse child trace: %v", err)
+						}
+					} else {
+						t.Fatalf("the node started over the data directory printed no trace:\n%s", out)
+					}
+					if diff := compareTraces(traceA[k+1:], traceD); diff != "" {
+						t.Fatalf("a node restarted in a new OS process after block %d diverged from one that kept running: %s\nhistory:\n%s", k+1, diff, jsonStr(d.log))
+					}
+					st.Count("cold_restarts_in_a_new_process", 1)
+				}
 			}
 		}
 		nt := d.accepted["cfevesting"] > 0 && d.rejected > 0
@@ -179,6 +227,20 @@ func TestC11ReplayChild(t *testing.T) {
 	var h ConcreteHistory
 	if err := json.Unmarshal(bz, &h); err != nil {
 		t.Fatal(err)
+	}
+	if dump := os.Getenv("VERIF_C11_DBDUMP"); dump != "" {
+		// this process is a node started over the data directory another process left behind
+		dbz, err := os.ReadFile(dump)
+		if err != nil {
+			t.Fatal(err)
+		}
+		var from int
+		var height, timeNs int64
+		fmt.Sscanf(os.Getenv("VERIF_C11_RESUME"), "%d %d %d", &from, &height, &timeNs)
+		c := ResumeChain(LoadDB(dbz), height, nsTime(timeNs), NodeFlags{})
+		out, _ := json.Marshal(c.RunBlocks(h, from, len(h.Blocks)))
+		fmt.Printf("TRACE:%s\n", out)
+		return
 	}
 	tr := Replay(h)
 	out, _ := json.Marshal(tr)
